@@ -273,6 +273,10 @@ impl MonthCode {
         if src.len() == 4 && bytes[3] != b'L' {
             return Err(TemporalError::range().with_message("Leap month code must end with 'L'"));
         }
+        // `M00` exists only as the leap month code `M00L`.
+        if src.len() == 3 && bytes[1] == b'0' && bytes[2] == b'0' {
+            return Err(TemporalError::range().with_message("Invalid month code digit"));
+        }
 
         Ok(Self(inner))
     }
